@@ -3,8 +3,10 @@
 
 mod concr;
 mod hooks;
+mod proofs;
 mod refmodel;
 mod replay;
+mod term;
 mod watchdog;
 
 fn main() {
@@ -16,6 +18,7 @@ fn main() {
     let rest = &args[1..];
     let r = match cmd.as_str() {
         "replay" => replay::main(rest),
+        "proofs" => proofs::main(rest),
         other => Err(anyhow::anyhow!("unknown sub-command {other}")),
     };
     if let Err(e) = r {
